@@ -71,7 +71,16 @@ impl<P, T> Index<usize> for Table<P, T> {
     type Output = Node<P, T>;
 
     fn index(&self, index: usize) -> &Self::Output {
-        &self.as_ref()[index]
+        // Only ever create a reference to the single node, never to the whole slice: mutable
+        // references to *other* nodes handed out by `get_mut` may be alive (see `get_mut`).
+        unsafe {
+            let nodes = self.0.get().as_ref().unwrap();
+            let len = nodes.len();
+            if index >= len {
+                panic!("index out of bounds: the len is {len} but the index is {index}");
+            }
+            nodes.as_ptr().add(index).as_ref().unwrap()
+        }
     }
 }
 
